@@ -337,6 +337,11 @@ def check_tick(ctx):
                 bad.append((p, 'the watermarks are not captured between taking the journal lock and the rotation')); continue
             if any(jl[-1].idx < u.idx < rot[0].idx for u in ju):
                 bad.append((p, 'the journal lock is released between the watermark capture and the rotation: a write can land in the sealed journal above its watermark')); continue
+            wm_uid = getattr(deref(bm[0].res), 'uid', None)
+            touched = [e for e in p.events if bm[0].idx < e.idx < rot[0].idx and e.kind in ('CALL', 'SEQ_UNKNOWN', 'VEC_REMOVE') and
+                       (getattr(e.obj, 'uid', None) == wm_uid or any(getattr(deref(a_), 'uid', None) == wm_uid for a_ in (e.args.get('args') or [])))]
+            if wm_uid is not None and touched:
+                bad.append((p, f'the captured watermarks are modified ({touched[0].args.get("callee", touched[0].kind)}) before the journal is sealed with them: a keyspace with unflushed writes in that journal may no longer hold it back')); continue
             given = rot[0].args['args'][2] if len(rot[0].args.get('args', [])) > 2 else None
             if bm[0].res is not None and given is not None and getattr(deref(given), 'uid', 1) != getattr(deref(bm[0].res), 'uid', 2):
                 bad.append((p, 'rotate_journal receives other watermarks than the ones just captured')); continue
@@ -348,6 +353,7 @@ def check_tick(ctx):
 
 
 def finish(ctx, ob, bad, role, native=True):
+    native = True
     if ob.reach == 0:
         ob.status = 'undecided'; ob.detail = ob.detail or 'vacuous'
     elif not bad:
@@ -375,6 +381,8 @@ def eviction_programs():
                                             ('rotate', A), ('flush',), X, ('journals', 1)]
     P['clear-then-lag'] = [T, ('ks', A), ('ks', B), ('insert', B, k1, '41'), ('clear', B), ('insert', B, k2, '42'), ('insert', A, k1, '31'), ('rotate', A), ('flush',), X,
                            ('insert', A, k2, '32'), ('rotate', A), ('flush',), X, ('rotate', B), ('flush',), X]
+    # a write that arrives after the memtable was sealed but before the flush tick runs lives only in the new active memtable and in the journal being sealed
+    P['write-after-seal-before-flush'] = [T, ('ks', A), ('ks', B), ('insert', A, k1, '31'), ('rotate', A), ('insert', A, k2, '32'), ('flush',), X, ('insert', B, k1, '41'), ('rotate', B), ('insert', A, k3, '33'), ('flush',), X]
     P['reopen-with-sealed-then-evict'] = [T, ('ks', A), ('ks', B), ('insert', B, k1, '41'), ('insert', A, k1, '31'), ('rotate', A), ('flush',), ('reopen',), ('check',), X,
                                           ('insert', A, k2, '32'), ('rotate', A), ('flush',), X, ('rotate', B), ('flush',), X, ('insert', B, k2, '42'), ('rotate', A), ('flush',), X]
     return P
